@@ -21,7 +21,8 @@
    Err EOther and compared by result class only), ints in Go's int range, colour components < 256. *)
 From Coq Require Import List ZArith NArith Bool.
 From Astisub Require Import Kit.Base Kit.Str Kit.Scan Model.Dur Model.Ssa.
-From Astisub Require Import Proofs.SsaFields Proofs.SsaText Proofs.SsaRows Proofs.SsaDoc.
+From Coq Require Import Permutation.
+From Astisub Require Import Proofs.EolProofs Proofs.SsaFields Proofs.SsaText Proofs.SsaRows Proofs.SsaDoc Proofs.SsaIgnore Proofs.SsaOrder Proofs.SsaRepr.
 Import ListNotations.
 
 (* ---- field codecs ---- *)
@@ -111,3 +112,66 @@ Theorem C04_rewrite : forall d, doc_repr d ->
   exists data d', write_ssa d (style_keys d) = Ok data /\ read_ssa data = Ok d' /\ write_ssa d' (style_keys d') = Ok data.
 Proof. exact rewrite_same. Qed.
 Print Assumptions C04_rewrite.
+
+(* the same for every order in which the runtime may range over the styles map *)
+Theorem C04_write_read_any_order : forall d order, doc_repr d -> Permutation order (style_keys d) ->
+  exists data, write_ssa d order = Ok data /\ read_ssa data = Ok (canon_doc d).
+Proof. exact write_read_any_order. Qed.
+Print Assumptions C04_write_read_any_order.
+Theorem C04_rewrite_any_order : forall d order order', doc_repr d -> Permutation order (style_keys d) ->
+  exists data d', write_ssa d order = Ok data /\ read_ssa data = Ok d' /\
+                  (Permutation order' (style_keys d') -> write_ssa d' order' = Ok data).
+Proof. exact rewrite_same_any_order. Qed.
+Print Assumptions C04_rewrite_any_order.
+Theorem C04_write_order_independent : forall d order order', Permutation order order' -> write_ssa d order = write_ssa d order'.
+Proof. exact write_order_independent. Qed.
+Print Assumptions C04_write_order_independent.
+(* the side condition is decidable, and a document with script info, comments, two styles over all kinds of attributes,
+   an event with an empty first line, consecutive override blocks, commas and a trailing backslash satisfies it *)
+Theorem C04_repr_decidable : forall d, doc_reprb d = true -> doc_repr d.
+Proof. exact doc_reprb_ok. Qed.
+Print Assumptions C04_repr_decidable.
+Example C04_example : doc_repr ex_doc.
+Proof. exact ex_doc_repr. Qed.
+
+(* ---- what the reader ignores ---- *)
+Theorem C04_ignores_unintelligible_lines : forall l1 j l2 e, l1 <> [] -> junk j ->
+  read_ssa_lines (l1 ++ j :: l2) e = read_ssa_lines (l1 ++ l2) e.
+Proof. exact read_ignores_junk. Qed.
+Print Assumptions C04_ignores_unintelligible_lines.
+Theorem C04_ignores_unknown_sections : forall l1 u body l2 e, l1 <> [] -> unknown_hdr u -> Forall not_hdr body ->
+  (l2 = [] \/ exists h r, l2 = h :: r /\ is_hdr h) ->
+  read_ssa_lines (l1 ++ u :: body ++ l2) e = read_ssa_lines (l1 ++ l2) e.
+Proof. exact read_ignores_unknown_section. Qed.
+Print Assumptions C04_ignores_unknown_sections.
+Theorem C04_ignores_other_events : forall l1 row l2 e ev, l1 <> [] -> is_dialogue ev = false ->
+  (forall s, ssa_run rstate0 true l1 = Ok s ->
+             ssa_step s false row = Ok (mkRstate (rs_sect s) (rs_fmt s) (rs_info s) (rs_styles s) (rs_events s ++ [ev]))) ->
+  read_ssa_lines (l1 ++ row :: l2) e = read_ssa_lines (l1 ++ l2) e.
+Proof. exact read_ignores_other_events. Qed.
+Print Assumptions C04_ignores_other_events.
+(* line endings and byte-order mark *)
+Theorem C04_eol : forall e ls, eol_ok e -> Forall brkfree ls -> read_ssa (render_eol e ls) = read_ssa_lines ls false.
+Proof. exact read_eol. Qed.
+Print Assumptions C04_eol.
+Theorem C04_bom : forall l ls e, l <> [] -> trim_space l = l -> prefix bom3 l = None ->
+  read_ssa_lines ((bom3 ++ l) :: ls) e = read_ssa_lines (l :: ls) e.
+Proof. exact read_bom. Qed.
+Print Assumptions C04_bom.
+
+(* ---- totality ---- *)
+Theorem C04_reader_total : forall ls e p, read_ssa_lines ls e <> Panic p.
+Proof. exact read_no_panic. Qed.
+Print Assumptions C04_reader_total.
+Theorem C04_writer_total : forall d order p, write_ssa d order <> Panic p.
+Proof. exact write_no_panic. Qed.
+Print Assumptions C04_writer_total.
+
+(* ---- style references ---- *)
+Theorem C04_star_style : forall e styles n, av_style e = star ++ n -> n <> [] ->
+  sm_mem (star ++ n) styles = false -> sm_mem n styles = true -> ai_style (event_item e styles) = Some n.
+Proof. exact star_style_resolves. Qed.
+Print Assumptions C04_star_style.
+Theorem C04_star_default : forall e, exists e', event_cell (eattr_name EStyle) n_star_default e = Ok e' /\ av_style e' = n_default.
+Proof. exact star_default_cell. Qed.
+Print Assumptions C04_star_default.
